@@ -134,12 +134,14 @@ Proof. unfold good. intros G R (l & E & F) R'. rewrite E, R'. apply rstate_befor
 (* ---------- instances of the frame argument ---------- *)
 Definition rmono (c c' : conn) : Prop := k_ready c = true -> k_ready c' = true.
 Ltac inst_rm L := first [eapply L with (P := rmono) (ok_item := fun _ => True) | eapply L with (P := rmono)];
+                  try (intros c0; unfold rmono, close_socket; destruct (k_sock c0); cbn; auto; fail);
                   try (intros; apply send_from_emit with (ok_item := fun _ => True));
                   try (unfold rmono; intros; cbn; auto; fail); try (unfold rmono; intros; eauto);
                   try (intros; exact I); try (match goal with e0 : ev |- _ => destruct e0; exact I end).
 
 Definition same_rd (c c' : conn) : Prop := k_ready c' = k_ready c.
 Ltac inst_sr L := first [eapply L with (P := same_rd) (ok_item := fun _ => True) | eapply L with (P := same_rd)];
+                  try (intros c0; unfold same_rd, close_socket; destruct (k_sock c0); reflexivity);
                   try (intros; apply send_from_emit with (ok_item := fun _ => True));
                   try (intros; reflexivity); try (unfold same_rd; intros; congruence); try (intros; exact I).
 
